@@ -477,6 +477,12 @@ fn plan_base(prop: &str) -> Vec<Item> {
             v.push(it("sync_states", "pool=2,st=8,n=1", Some(2), 3));
             v.push(it("sync_states", "pool=2,st=3,n=2", Some(1), 2));
             v.push(it("f3_nested_sync", "pool=1", Some(3), 4));
+            // a blocking wait nested inside a blocking wait on one thread (seed C14-j)
+            for inner in [0, 2] {
+                v.push(it("nested_wait", &format!("pool=0,inner={},seq=1", inner), Some(2), 3));
+                v.push(it("nested_wait", &format!("pool=0,inner={}", inner), Some(0), 1));
+            }
+            v.push(it("nested_wait", "pool=1,inner=0,seq=1", Some(1), 2));
             // a sync caller blocked behind a suspended operation is the only possible runner once the pool is pinned (seed C06-j)
             for wake in [0, 1, 2] {
                 v.push(it("wake_ctx", &format!("pool=1,kind=0,ctx=3,wake={}", wake), Some(2), 3));
@@ -935,6 +941,11 @@ fn plan_base(prop: &str) -> Vec<Item> {
             v.push(it("panic_contain", "pool=0,ctx=4", Some(1), 2));
             v.push(it("panic_contain", "pool=0,ctx=4,revive=1", Some(2), 3));
             v.push(it("panic_contain", "pool=1,ctx=4,revive=1", Some(1), 2));
+            // a blocking wait nested inside a blocking wait on one thread (seed C14-j)
+            for inner in [0, 2] {
+                v.push(it("nested_wait", &format!("pool=0,inner={},seq=1,raw=0", inner), Some(2), 3));
+            }
+            v.push(it("nested_wait", "pool=1,inner=0,seq=1,raw=0", Some(1), 2));
             v.extend(prog_sweep(&[], &[1], Some(1), 2, None, 2));
             v.extend(prog_pairs(&[], "pool=1,busy=1,raw=0", false, None, 1, 1));
             v.extend(prog_sweep(&[], &[0, 2], None, 1, None, 1));
@@ -971,6 +982,7 @@ pub fn owners(scenario: &str, part: &str) -> Vec<&'static str> {
         "excl_susp" => vec!["C06", "C01", "C09", "C08"],
         "excl_drop" => vec!["C07", "C01", "C04"],
         "repoll" => vec!["C07", "C01", "C04"],
+        "nested_wait" => vec!["C04", "C03"],
         "order_ctx" => vec!["C02", "C03"],
         "pipe_in_items" => vec!["C11", "C03"],
         "pipe_out" | "pipe_steal" | "pipe_rewake" | "pipe_partial" | "pipe_fs" => vec!["C12", "C03"],
